@@ -42,8 +42,10 @@ pub fn roots(tier: &str) -> Vec<TrioRoot> {
         c
     };
     for (cw, amp, f, first, pre) in combos {
-        v.push(TrioRoot { label: format!("cw20={}/amp{}/fees{}/first{:?}/pre={}", cw, amp, f, first, pre), with_cw20: cw, amp, fees: FEES[f], first, pre_swaps: pre });
+        v.push(TrioRoot { label: format!("cw20={}/amp{}/fees{}/first{:?}/pre={}", cw, amp, f, first, pre), with_cw20: cw, amp, fees: FEES[f], first, pre_swaps: pre, mid_ramp_to: None });
     }
+    let e9 = 10u128.pow(9);
+    v.push(TrioRoot { label: "cw20=false/amp100->1000 mid-ramp/fees1".into(), with_cw20: false, amp: 100, fees: FEES[1], first: [e9, 2 * e9, e9], pre_swaps: true, mid_ramp_to: Some(1000) });
     v
 }
 
@@ -59,7 +61,7 @@ pub fn c07_trio_scn(tier: &str) -> TrioScn {
             if tier == "quick" && cw && fi == 1 {
                 continue;
             }
-            roots.push(TrioRoot { label: format!("cw20={}/fees{}", cw, fi), with_cw20: cw, amp: 100, fees: *f, first: [e12, e12, e12], pre_swaps: fi == 0 });
+            roots.push(TrioRoot { label: format!("cw20={}/fees{}", cw, fi), with_cw20: cw, amp: 100, fees: *f, first: [e12, e12, e12], pre_swaps: fi == 0, mid_ramp_to: None });
         }
     }
     TrioScn { property: "C07".into(), roots, fee_alphabet: vec![crate::checks::c07::PFEES[1], crate::checks::c07::PFEES[2]], probe: Probe::None, with_ramps: false }
